@@ -106,7 +106,7 @@ HIST_GROUPS = [
 ]
 
 
-def info(prop):
+def _info_bounded(prop):
     return {
         "level": "other",
         "functions": ["gaddlemaps/components/_system.py::System.__init__",
@@ -1057,7 +1057,7 @@ def task_guards(maxlen, seed):
 # ---------------------------------------------------------------------------
 
 
-def tasks(prop, tier, seed):
+def _tasks_bounded(prop, tier, seed):
     t = []
     if tier == "quick":
         maxlen, nparts, nr = 4, 1, 2
@@ -1090,7 +1090,7 @@ def tasks(prop, tier, seed):
     return t
 
 
-def replay(prop, cex):
+def _replay_bounded(prop, cex):
     clause = cex.get("clause")
     res = Result()
     try:
@@ -1127,3 +1127,41 @@ def replay(prop, cex):
             "observed": failed.get(clause) if clause in failed else (failed or "every clause holds"),
             "expected": f"clause {CLAUSES.get(str(clause).split('[')[0], clause)} of the statement holds for this file and loading order",
             "violated_clauses": sorted(failed), "inputs": cex, "files": files_txt}
+
+
+# ---------------------------------------------------------------------------
+# deductive part (contracts/d12_offsets_vc.py: block generator) wired in
+
+
+def info(prop):
+    from . import d12_offsets_vc as D
+    d = _info_bounded(prop)
+    h = D.deductive_info()
+    d["functions"] = [h["functions"][2]] + d.get("functions", [])
+    d["stubs"] = h["stubs"] + d.get("stubs", [])
+    d["explanation"] = ("Deductive: System._molecules_ordered_all_gen verified on its AST for block lists of any length (every yielded molecule spans exactly its "
+                        "species' residue count; molecules of a block abut from the block start). " + d.get("explanation", ""))
+    d["trusted_base"] = ["z3 5.1", "vf/pyvc.py + vf/seq.py"] + d.get("trusted_base", [])
+    return d
+
+
+def tasks(prop, tier, seed):
+    from . import d12_offsets_vc as D
+    return list(D.deductive_tasks_c11(prop, tier, seed)) + list(_tasks_bounded(prop, tier, seed))
+
+
+def replay(prop, cex):
+    if cex.get("kind") == "vc":
+        for name, fn, args, _lim in _tasks_bounded(prop, "quick", 0)[:8]:
+            try:
+                obs = fn(*args)
+            except Exception:
+                continue
+            for o in obs:
+                if o.get("status") == "refuted" and o.get("kind") != "guard" and o.get("cex"):
+                    r = _replay_bounded(prop, o["cex"])
+                    if r and r.get("reproduced"):
+                        r["note"] = f"failed obligation {cex.get('obligation') or cex.get('signature')} manifests on the real System"
+                        return r
+        return {"reproduced": False, "inputs": cex, "note": "no failing system found in the bounded scope"}
+    return _replay_bounded(prop, cex)
